@@ -11,6 +11,10 @@ mod m_quals;
 mod m_builder;
 mod m_checksum;
 mod m_shapes;
+mod spell;
+mod engine_b;
+mod pools;
+mod transcript;
 
 use common::Tier;
 
@@ -26,6 +30,8 @@ fn main() {
         _ => Tier::Quick,
     };
     let mut replay: Option<String> = None;
+    let mut out: Option<String> = None;
+    let mut chunk: Option<String> = None;
     let mut i = 2;
     while i < args.len() {
         match args[i].as_str() {
@@ -37,6 +43,14 @@ fn main() {
                 i += 1;
                 replay = args.get(i).cloned();
             },
+            "--out" => {
+                i += 1;
+                out = args.get(i).cloned();
+            },
+            "--chunk" => {
+                i += 1;
+                chunk = args.get(i).cloned();
+            },
             other => {
                 eprintln!("unknown argument {other}");
                 std::process::exit(2);
@@ -47,6 +61,13 @@ fn main() {
     let seed: i64 = std::env::var("VERIF_SEED").ok().and_then(|s| s.parse().ok()).unwrap_or(0);
     // silence the default panic message: every library call is wrapped and reported by the harness
     std::panic::set_hook(Box::new(|_| {}));
+    if prop == "transcript" {
+        let Some(out) = out else {
+            eprintln!("transcript needs --out <file>");
+            std::process::exit(2);
+        };
+        std::process::exit(transcript::write_transcript(tier, &out, chunk.as_deref()));
+    }
     let code = props::run(&prop, tier, seed, replay.as_deref());
     std::process::exit(code);
 }
